@@ -37,6 +37,7 @@ func runC05(c *Ctx) {
 	r.Doc("P2", "strategic = divider(all registered priorities sorted, HandlersQuantity) into an empty map; v1: refreshed after every change of the set", 4)
 	r.Doc("D2", "lists handed to the divider are sorted and duplicate-free", 8)
 	r.Doc("P3", "the second phase hands out the unspent allotment of the round, measured before anything changes the map", 2)
+	r.Doc("P4", "the pass over an input ends only when its allotment is spent, nothing is buffered / two ticks passed, it is closed, or a stop fired (so an unspent allotment means 'no data')", 4)
 	for _, p := range []*Prog{c.V1, c.V2} {
 		pr, err := resolvePrio(p)
 		if err != nil {
@@ -60,6 +61,7 @@ func runC05(c *Ctx) {
 			}
 		}
 		checkP2c(c, pr)
+		checkSpendLoopExits(c, pr, "P4")
 	}
 }
 
@@ -283,6 +285,7 @@ func runC06(c *Ctx) {
 	r.Doc("N5", "(= P1) with nothing in flight the first-phase allotment is the validated strategic distribution: the top-up visits every registered priority and assigns strategic-actual", 2)
 	r.Doc("N6", "the base-path candidates (uncrowded) are exactly the registered priorities with actual < strategic", 2)
 	r.Doc("N7", "the 'allotment filled' predicate answers true exactly when every listed priority has a non-zero allotment", 2)
+	r.Doc("N9", "(= P4) the pass over an input is left early only for lack of data, closure or stop", 4)
 	r.Doc("N8", "second-phase candidates: first the priorities that used up their allotment (tactic == 0), then those with actual < hypothetical share", 4)
 	for _, p := range []*Prog{c.V1, c.V2} {
 		pr, err := resolvePrio(p)
@@ -306,6 +309,7 @@ func runC06(c *Ctx) {
 			c.R.Check(o.OK, "N5", strings.TrimPrefix(o.Key, "P1@"), o.Site, o.Detail, o.Detail)
 		}
 		checkN6(c, pr)
+		checkSpendLoopExits(c, pr, "N9")
 	}
 	sub := &Ctx{V1: c.V1, V2: c.V2, Tier: c.Tier, R: NewReport("tmp", c.Tier)}
 	checkD7D8(sub)
